@@ -197,6 +197,7 @@ struct Msg {
     std::vector<size_t> size_digits;                            // wire positions of chunk-size hex digits
     std::vector<size_t> hdr_starts;                             // wire positions where a header line may be inserted
     std::vector<Lookup> plan;
+    int variant = 0;                                            // index among the core messages of one framing kind
     void app(const std::string& s, El e) { wire += s; el.append(s.size(), (char)e); }
     void header(const std::string& name, const std::string& sep, const std::string& value) {
         hdr_starts.push_back(wire.size());
@@ -277,7 +278,7 @@ struct Result {
     int rh = -99;
     Verb verb = Verb::UNKNOWN; std::string target, version, reason; int status = 0;
     std::vector<std::pair<std::string, std::string>> hdrs;      // iteration order
-    std::string body; std::vector<ssize_t> rcs; ssize_t last_rc = -99; ssize_t again_rc = -99;
+    std::string body; struct { ssize_t v[64]; size_t n = 0; size_t size() const { return n; } ssize_t operator[](size_t i) const { return v[i]; } } rcs; ssize_t last_rc = -99; ssize_t again_rc = -99;
     bool overrun = false, endless = false, hdr_changed = false;
     uint64_t calls = 0;
     std::string lookup_err, lookup_case_err;
@@ -287,7 +288,7 @@ struct ExpectHdrs { const std::vector<std::pair<std::string, std::string>>* h; }
 
 
 static void snapshot_headers(const Headers& h, std::vector<std::pair<std::string, std::string>>& out) {
-    out.clear(); int guard = 0;
+    out.clear(); out.reserve(8); int guard = 0;
     for (auto it = h.begin(); it != h.end(); ++it) {
         auto k = it.first(); auto v = it.second();
         out.push_back({std::string(k.data(), k.size()), std::string(v.data(), v.size())});
@@ -328,9 +329,17 @@ static void run(const std::string& wire, const Delivery& d, Mode mode, Verb clie
     MockStream ms; ms.script(wire, d.p, d.n, d.every);
     // exact-size heap blocks, reused between cases of the same size (a fresh 64 KiB block per case costs 200 us of page faults)
     static char* bufs[65536]; static char* ubs[RB_BIG + 1];
-    if (!bufs[cap]) bufs[cap] = (char*)malloc(cap);
+    bool fresh = !bufs[cap];
+    if (fresh) bufs[cap] = (char*)malloc(cap);
     if (!ubs[rb]) ubs[rb] = (char*)malloc(rb);
-    char* buf = bufs[cap]; memset(buf, 0xDD, cap);
+    // refill with 0xDD: everything after a run that failed or parsed many headers, else only what a run can have touched
+    // (received bytes + 4 KiB chunk line buffer from the front, header index from the back)
+    static bool dirty[65536];
+    char* buf = bufs[cap];
+    size_t front = wire.size() + 2 * 4096 + 64, back = 2048;
+    if (fresh || dirty[cap] || front + back >= cap) memset(buf, 0xDD, cap);
+    else { memset(buf, 0xDD, front); memset(buf + cap - back, 0xDD, back); }
+    dirty[cap] = false;
 #ifndef C13_RXBUF_NONUL
     // Request::parse_request_line (message.cpp:369) runs strlen() over the receive buffer (char* -> string_view); with a buffer
     // that holds no NUL byte this leaves the block. That defect is reported by the separate target http_rxbuf_nonul; here the
@@ -354,7 +363,7 @@ static void run(const std::string& wire, const Delivery& d, Mode mode, Verb clie
                 memset(ub, 0xEE, rb);
                 ssize_t rc = m->read(ub, rb);
                 r.last_rc = rc;
-                if (r.rcs.size() < 64) r.rcs.push_back(rc);
+                if (r.rcs.n < 64) r.rcs.v[r.rcs.n++] = rc;
                 if (rc <= 0) break;
                 if ((size_t)rc > rb) { r.body.append("<rc larger than buffer>"); break; }
                 r.body.append(ub, rc);
@@ -362,13 +371,14 @@ static void run(const std::string& wire, const Delivery& d, Mode mode, Verb clie
             }
             if (r.last_rc == 0) { memset(ub, 0xEE, rb); r.again_rc = m->read(ub, rb); }
             // the header view must survive reading the body (chunk line buffer lives in the same block)
-            std::vector<std::pair<std::string, std::string>> again; snapshot_headers(m->headers, again);
+            static std::vector<std::pair<std::string, std::string>> again; snapshot_headers(m->headers, again);
             if (again != r.hdrs) r.hdr_changed = true;
             if (mode == M_SERVER_REQ) { auto t = req.target(); if (r.target != std::string(t.data(), t.size())) r.hdr_changed = true; }
             else { auto s = resp.status_message(); if (r.reason != std::string(s.data(), s.size())) r.hdr_changed = true; }
         }
     }
     r.overrun = ms.overrun; r.calls = ms.calls;
+    if (r.rh != 0 || r.hdrs.size() > 200) dirty[cap] = true;
 }
 
 static bool is_subsequence(const std::string& a, const std::string& of) {
@@ -528,10 +538,12 @@ static std::vector<Msg> core_messages(bool thorough) {
             const auto& sel = S[(fi * 5 + v * 7) % S.size()];
             int fpos = (int)((fi + v) % (sel.size() + 1));
             bool tail = (frs[fi].kind == F_CL || frs[fi].kind == F_CHUNK) && (v % 2 == 1);
-            out.push_back(build(start, sel, frs[fi], fpos, tail));
+            out.push_back(build(start, sel, frs[fi], fpos, tail)); out.back().variant = v;
         }
     return out;
 }
+
+static void tick(seqx::Ctx& c, const char* name) { static uint64_t last = 0; static int on = -1; if (on < 0) on = getenv("C13_COUNT") != nullptr; if (on) fprintf(stderr, "  %-28s %llu\n", name, (unsigned long long)(c.counter - last)); last = c.counter; }
 
 static void enum_valid(seqx::Ctx& c, bool thorough) {
     const std::vector<size_t> RB3 = {1, 2, RB_BIG}, RB2 = {1, RB_BIG}, RB1 = {RB_BIG};
@@ -541,13 +553,17 @@ static void enum_valid(seqx::Ctx& c, bool thorough) {
         Msg a = build(0, {}, {F_NONE, 0, 0}, 0, false);       // "GET / HTTP/1.1\r\n\r\n"  18 bytes
         layer_window(c, a, 0, (int)a.wire.size() - 1, -1, RB1, "A0-all-fragmentations", 10);
         Msg b = build(2, {}, {F_NONE, 0, 0}, 0, false);       // "HTTP/1.1 200 OK\r\n\r\n" 19 bytes
-        layer_window(c, b, 0, (int)b.wire.size() - 1, -1, RB1, "A0-all-fragmentations", 10);
+        if (thorough) layer_window(c, b, 0, (int)b.wire.size() - 1, -1, RB1, "A0-all-fragmentations", 10);
+        else layer_window(c, b, 6, 12, -1, RB1, "A0-all-fragmentations-of-last-13-bytes", 10);
     }
+    tick(c, "A0");
     // A: core messages, every choice of <= 2 (quick) / <= 3 (thorough) cuts, whole, one byte at a time
-    int kmax = thorough ? 3 : 2;
-    for (auto& m : core) layer_cuts(c, m, kmax, m.payload.empty() ? RB2 : RB3, 65535, false, "A-cuts", 11);
+    // (thorough: <= 3 cuts for the first message of every framing kind, <= 2 for its 3 other variants)
+    int kmax = 2;
+    for (auto& m : core) layer_cuts(c, m, thorough && m.variant == 0 ? 3 : 2, m.payload.empty() ? RB2 : RB3, 65535, false, "A-cuts", 11);
+    tick(c, "A");
     // C: all fragmentations of a window around every CRLF / terminator / chunk-size line, and of the whole body framing
-    int W = thorough ? 12 : 8;
+    int W = thorough ? 11 : 8;
     for (auto& m : core) {
         int L = (int)m.wire.size(), last = -100;
         for (int p = 1; p < L; p++) {
@@ -561,6 +577,7 @@ static void enum_valid(seqx::Ctx& c, bool thorough) {
         if (m.fr.kind == F_CHUNK && bodyw + 2 <= (thorough ? 21 : 15))
             layer_window(c, m, (int)m.hdr_len - 3, bodyw + 2, kmax, RB3, "C-body-all-fragmentations", 13);
     }
+    tick(c, "C");
     // B: broad product of start line x header selection x framing x position of the framing header; <= 1 cut (quick) / <= 2 cuts (thorough)
     std::vector<std::vector<int>> sels = {{}};
     for (int a = 0; a < NPOOL; a++) { sels.push_back({a}); for (int b = 0; b < NPOOL; b++) { sels.push_back({a, b}); if (thorough) for (int d = 0; d < NPOOL; d++) sels.push_back({a, b, d}); } }
@@ -573,9 +590,10 @@ static void enum_valid(seqx::Ctx& c, bool thorough) {
                 for (int fpos = 0; fpos < npos; fpos++) {
                     if (thorough && sel.size() == 3 && fpos != 0 && fpos != 3) continue;
                     Msg m = build(start, sel, fr, fpos, false);
-                    layer_cuts(c, m, (thorough && sel.size() <= 2) ? 2 : 1, thorough ? RB2 : RB1, 65535, false, "B-product", 14);
+                    layer_cuts(c, m, (thorough && sel.size() <= 1) ? 2 : 1, thorough ? RB2 : RB1, 65535, false, "B-product", 14);
                 }
             }
+    tick(c, "B");
     // F: smallest receive buffer that can still take the header one byte at a time (cap = header + 5121): "no buffer" or the right answer
     for (auto& m : core) {
         unsigned cap = (unsigned)m.hdr_len + 5121;
@@ -642,6 +660,7 @@ static std::vector<int> near_positions(const Msg& m, size_t at, int delta, size_
 }
 
 static void enum_bad(seqx::Ctx& c, bool thorough) {
+    tick(c, "D");
     const std::vector<size_t> RB2 = {1, RB_BIG}, RB1 = {RB_BIG};
     std::vector<Msg> core = core_messages(thorough);
     char what[200];
@@ -654,9 +673,10 @@ static void enum_bad(seqx::Ctx& c, bool thorough) {
             std::string w = m.wire.substr(0, T), el = m.el.substr(0, T);
             snprintf(what, sizeof what, "truncated-after=%d(of %zu)", T, m.msg_len);
             std::vector<int> cand; for (int p : m.cand) if (p < T) cand.push_back(p);
-            bad_deliveries(c, m, K_TRUNC, "trunc", what, T, w, el, cand, thorough && !longmsg, RB2, T < (int)m.hdr_len ? 0 : m.el[T]);
+            bad_deliveries(c, m, K_TRUNC, "trunc", what, T, w, el, cand, thorough && !longmsg && m.variant == 0, RB2, T < (int)m.hdr_len ? 0 : m.el[T]);
         }
     }
+    tick(c, "F+D+E1");
     // E2 chunk-size digits replaced by non-hex; E4 chunk size larger than the data that follows
     for (auto& m : core) {
         if (m.fr.kind != F_CHUNK) continue;
@@ -665,7 +685,7 @@ static void enum_bad(seqx::Ctx& c, bool thorough) {
             for (char ch : {'g', '-', ' ', 'x', '\r', '\n'}) {
                 std::string w = m.wire; w[p] = ch;
                 snprintf(what, sizeof what, "byte[%zu]('%c' of a chunk-size)->0x%02x", p, m.wire[p], ch);
-                bad_deliveries(c, m, K_BADHEX, "badhex", what, 0, w, m.el, near_positions(m, p, 0, w.size()), thorough && w.size() < 300, RB2, ch * 4 + (m.el[p] == E_LAST));
+                bad_deliveries(c, m, K_BADHEX, "badhex", what, 0, w, m.el, near_positions(m, p, 0, w.size()), thorough && w.size() < 300 && m.variant == 0, RB2, ch * 4 + (m.el[p] == E_LAST));
             }
             if (m.el[p] != E_LAST && (p + 1 == m.wire.size() || m.el[p + 1] != E_CSIZE)) {          // last digit of a data chunk's size
                 for (const char* repl : {"+1", "+2", "1000", "ffffffffffffffff", "fffffffffffffffff"}) {
@@ -678,6 +698,7 @@ static void enum_bad(seqx::Ctx& c, bool thorough) {
             }
         }
     }
+    tick(c, "E2/E4");
     // E3 one CR or one LF of a structural CRLF missing
     for (auto& m : core)
         for (size_t p = 0; p < m.msg_len; p++) {
@@ -685,8 +706,9 @@ static void enum_bad(seqx::Ctx& c, bool thorough) {
             bool is_lf = p > 0 && m.el[p - 1] == m.el[p];
             std::string w = m.wire, el = m.el; w.erase(p, 1); el.erase(p, 1);
             snprintf(what, sizeof what, "%s-at[%zu]-deleted", is_lf ? "LF" : "CR", p);
-            bad_deliveries(c, m, is_lf ? K_NOLF : K_NOCR, is_lf ? "nolf" : "nocr", what, 0, w, el, near_positions(m, p, -1, w.size()), thorough && w.size() < 300, RB2, m.el[p]);
+            bad_deliveries(c, m, is_lf ? K_NOLF : K_NOCR, is_lf ? "nolf" : "nocr", what, 0, w, el, near_positions(m, p, -1, w.size()), thorough && w.size() < 300 && m.variant == 0, RB2, m.el[p]);
         }
+    tick(c, "E3");
     // E5 header line without colon, inserted at every header position
     for (auto& m : core)
         for (size_t hi = 0; hi < m.hdr_starts.size(); hi++)
@@ -696,15 +718,16 @@ static void enum_bad(seqx::Ctx& c, bool thorough) {
                 snprintf(what, sizeof what, "line-without-colon(%zu bytes)-inserted-at[%zu]", strlen(line), p);
                 bad_deliveries(c, m, K_NOCOLON, "nocolon", what, 0, w, el, near_positions(m, p, (int)strlen(line), w.size()), false, RB2, hi * 4 + strlen(line) % 4);
             }
+    tick(c, "E5");
     // E7 every byte string up to length n over a small alphabet: as a whole message, after a valid start line, as a chunked body
     {
         const char A[] = {'G', '1', ' ', '\r', '\n', ':', '0', 'H'}; const char B[] = {'0', '1', 'a', '\r', '\n', ';', 'g'};
         Msg rq = build(0, {}, {F_NONE, 0, 0}, 0, false), rs = build(2, {}, {F_NONE, 0, 0}, 0, false);
         Msg cq = build(1, {}, {F_CHUNK, 0, 0}, 0, false), cs = build(2, {0}, {F_CHUNK, 0, 0}, 1, false);
         struct G { const Msg* base; size_t keep; const char* alpha; int na; int maxlen; const char* name; };
-        G gs[] = {{&rq, 0, A, 8, thorough ? 6 : 5, "garbage-as-request"}, {&rs, 0, A, 8, thorough ? 6 : 5, "garbage-as-response"},
-                  {&rq, 16, A, 8, thorough ? 5 : 4, "garbage-after-request-line"}, {&rs, 17, A, 8, thorough ? 5 : 4, "garbage-after-status-line"},
-                  {&cq, cq.hdr_len, B, 7, thorough ? 7 : 6, "garbage-as-chunked-request-body"}, {&cs, cs.hdr_len, B, 7, thorough ? 7 : 6, "garbage-as-chunked-response-body"}};
+        G gs[] = {{&rq, 0, A, 8, thorough ? 6 : 4, "garbage-as-request"}, {&rs, 0, A, 8, thorough ? 6 : 4, "garbage-as-response"},
+                  {&rq, 16, A, 8, thorough ? 5 : 3, "garbage-after-request-line"}, {&rs, 17, A, 8, thorough ? 5 : 3, "garbage-after-status-line"},
+                  {&cq, cq.hdr_len, B, 7, thorough ? 6 : 5, "garbage-as-chunked-request-body"}, {&cs, cs.hdr_len, B, 7, thorough ? 6 : 5, "garbage-as-chunked-response-body"}};
         for (auto& g : gs)
             for (int len = 1; len <= g.maxlen; len++) {
                 uint64_t total = 1; for (int i = 0; i < len; i++) total *= g.na;
@@ -721,6 +744,7 @@ static void enum_bad(seqx::Ctx& c, bool thorough) {
                 }
             }
     }
+    tick(c, "E7");
     // E6 header block larger than / just fitting the receive buffer
     for (unsigned cap : {5200u, 8191u, 65535u})
         for (int start : {0, 2}) {
@@ -813,6 +837,7 @@ static bool produce(const WCase& w, const std::string& payload, std::string& cap
 }
 
 static void enum_writer(seqx::Ctx& c, bool thorough) {
+    tick(c, "F");
     std::vector<size_t> sizes = {0, 1, 2, 5, 16}; if (thorough) { sizes.push_back(33); } sizes.push_back(4100);
     for (int req = 0; req < 2; req++) for (int chunked = 0; chunked < 2; chunked++) for (size_t n : sizes) {
         std::string payload = make_payload(n, 3);
@@ -908,5 +933,5 @@ static void seqx_enumerate(seqx::Ctx& c, bool thorough) {
     enum_bad(c, thorough);    if (dbg) fprintf(stderr, "bad    %llu\n", (unsigned long long)(c.counter - k0));
 }
 
-SEQX_MAIN("C13", "http", "rule tbd")
+SEQX_MAIN("C13", "http", "one case = one input byte string + one delivery (fragment boundaries) + one body-read buffer size, run through real Request (server mode) / Response (client mode) objects on a scripted stream. Valid messages: start line x <=3 pool headers (duplicates, mixed case, empty value, no space after colon) x framing {none, Content-Length 0/1/5, 9 chunk layouts incl. [], [1], [0x10], [3,2], [1,4100], extension, trailer, leading zeros, close-delimited 0/1/5, HEAD} x position/case of the framing header x pipelined tail; deliveries: whole, one byte at a time, every choice of <=2 (quick) / <=3 (thorough, first message of each framing kind) cuts at every position, ALL 2^(n-1) fragmentations of the 18/19-byte messages, all fragmentations of an 8/11-position window around every CRLF/terminator/chunk-size line and of whole short chunked bodies; read sizes {1,2,8192}; smallest workable receive buffer as an extra class. Writer/reader: body through Message::write/writev (fixed-length and chunked writer) in every split into 1..3 calls, read back under whole / bytewise / every single cut. Bad input: every truncation point, chunk-size digits replaced, one CR or LF deleted, chunk size larger than the data, line without colon, every byte string up to 4-6 bytes over an 8-symbol alphabet as message / after a start line / as chunked body, header block and header count around the buffer limit. Oracle: generator's expectation (start line, header multimap incl. case-insensitive lookups, payload, read() return codes, end-of-body twice) for valid input; error/EOF within a step bound and body made only of input bytes (payload prefix for truncations) for bad input; ASan on exact-size receive and read buffers. distinct = hash(layer, request/response, framing kind, multiset of syntactic elements the cuts fall in (start line / header name / separator / value / CRLF / between CR and LF / terminator / chunk-size / extension / data / data CRLF / last chunk / trailer / final CRLF / tail), read size class, kind of bad input, outcome class)")
 #endif
